@@ -38,14 +38,15 @@ PARTIAL = ['SF.C07.resolve_holds_partial: the full statement (every held value s
            'model - int64/uint64 resolved with float64/complex128 gives float64/complex128 (counterexample proved: '
            'resolve_holds_counterexample, replayed as finding F5); proved under `lossyInto a (resolve a b) = false`, '
            'and lossy_characterisation says exactly which promotions that excludes']
-CORR_ONLY = ['every merging site (reindex/shift with fill value, from_concat both axes, assign element/array/Series/Frame, '
+CORR_ONLY = ['every merging site (reindex/shift with fill value, from_concat both axes, assign element/array/Series/Frame - incl. a contiguous column slice '
+             'inside one 2-D target block with list / slice / mask / single / full row keys and a value Frame of one block per column with independently drawn dtypes, '
              'fillna / fillna_leading / fillna_trailing, fillna_forward/backward(axis=1), from_overlay, insert_before/after, pivot_unstack / pivot_stack with a fill value, '
              'loc_searchsorted with a fill value, Frame.bloc selection, from_records, from_items, '
              'Series/Index from Python values, row consolidation via .values / iter_array(1) / row Series): oracle on the real code only '
              '(the model proves the merge pattern `empty(resolve_dtype_iter); write`, not that each site uses it)',
              'untouched columns keep their dtype (oracle only)']
 RULE = ('exhaustive: all ordered pairs of the 45-dtype universe (table layer) and all (site x base dtype x incoming dtype or element) '
-        'combinations of the 19 probing dtypes and 30 probing elements (site layer, thorough; quick samples the site product by seed); '
+        'combinations of the 19 probing dtypes and 30 probing elements (site layer; f_assign_frame takes a third dtype for the second value column: 8 representatives in quick, all 19 in thorough); '
         'non-trivial = the two dtypes differ or the element is not held by the base dtype; distinct = distinct case JSON')
 TRUSTED = ['tools/py2lean_dtype.py (translator of the branch skeleton of resolve_dtype, dtype_kind_to_na, dtype_to_fill_value; the same functions are also compared with the model on every run)',
            'np.result_type is a table parameter of the model (resultType), compared with NumPy on all ordered pairs each run',
@@ -53,7 +54,7 @@ TRUSTED = ['tools/py2lean_dtype.py (translator of the branch skeleton of resolve
            'ndarray.astype / item assignment value semantics are not modelled beyond `holds`']
 ASSUMPTIONS = ['datetime64/timedelta64 range overflow on unit conversion is not modelled (probing values are within 1678-2262)',
                'float values are modelled by the narrowest IEEE width that represents them exactly (probing values)']
-BUDGET = {'quick': 60, 'thorough': 700}
+BUDGET = {'quick': 75, 'thorough': 700}
 
 # --------------------------------------------------------------------------- universe
 HAS_LD = hasattr(np, 'float128')
@@ -397,6 +398,12 @@ def cases(ctx):
             for b in SITE_DTYPES:
                 for layout in (0, 1):
                     if layout == 1 and not site.startswith('f_'):
+                        continue
+                    if site == 'f_assign_frame':
+                        for b2 in (B2_QUICK if quick else SITE_DTYPES):
+                            if layout == 0 and b2 != b and quick:
+                                continue    # the 1-D target is the control: same-dtype value only in the quick tier
+                            combos.append({'k': 'site', 'site': site, 'a': a, 'b': b, 'layout': layout, 'b2': b2})
                         continue
                     combos.append({'k': 'site', 'site': site, 'a': a, 'b': b, 'layout': layout})
     if quick:
@@ -1392,7 +1399,123 @@ def f_fill_directional(a, b, layout):
     return o
 
 
+def mk_frame3(name, layout):
+    """columns A, A2, A3 (dtype `name`, three different value orders), K (int64), S (<U6).
+    layout 1: A, A2, A3 form ONE 2-D block of width 3; layout 0: every column its own 1-D block."""
+    import static_frame as sf
+    cols = [base_array(name, variant=v) for v in (0, 1, 2)]
+    k = np.array(K_VALS, dtype=np.int64)
+    s = np.array(S_VALS)
+    if layout == 1:
+        blk = np.empty((3, 3), dtype=cols[0].dtype)
+        for j, cl in enumerate(cols):
+            blk[:, j] = cl
+        blocks = [blk, k, s]
+    else:
+        blocks = cols + [k, s]
+    return sf.Frame(sf.TypeBlocks.from_blocks(blocks), index=IDX, columns=('A', 'A2', 'A3', 'K', 'S'), own_data=True)
+
+
+def fcols3(name):
+    return {'A': cells(base_array(name)), 'A2': cells(base_array(name, variant=1)), 'A3': cells(base_array(name, variant=2)),
+            'K': cells(np.array(K_VALS, dtype=np.int64)), 'S': cells(np.array(S_VALS))}
+
+
+# row keys of the block-slice assignments: (name, loc key, iloc key, addressed row positions)
+ROW_KEYS = (
+    ('list', ['p', 'r'], [0, 2], (0, 2)),
+    ('slice', slice('p', 'q'), slice(0, 2), (0, 1)),
+    ('mask', np.array([False, True, True]), np.array([False, True, True]), (1, 2)),
+    ('one', ['q'], [1], (1,)),
+    ('full', slice(None), slice(None), (0, 1, 2)),
+)
+
+
+def check_block_assign(o, f, r, c, rows, new, what):
+    """addressed cells of A2 / A3 hold the supplied values, every other cell and the dtype of every unaddressed column is unchanged"""
+    for lab in ('A2', 'A3'):
+        exp = list(c[lab])
+        for k, i in enumerate(rows):
+            exp[i] = new[lab][k]
+        o.col(exp, colarr(r, lab), f'{what} col {lab}')
+    for lab in ('A', 'K', 'S'):
+        o.col(c[lab], colarr(r, lab), f'{what} col {lab}')
+        o.keep(f[lab].dtype, r[lab].dtype, f'{what} {lab}')
+
+
+def f_assign_frame(a, b, layout, b2=None):
+    """Frame.assign.loc / iloc[rows, contiguous columns inside one 2-D block](Frame): the value Frame holds the two
+    addressed columns in SEPARATE blocks of independently drawn dtypes (b, b2); partial and full row keys"""
+    import static_frame as sf
+    b2 = b2 or b
+    f = mk_frame3(a, layout)
+    c = fcols3(a)
+    v2, v3 = base_array(b, variant=1), base_array(b2, variant=2)
+    o = Obs()
+    for name, lk, ik, rows in ROW_KEYS:
+        rows = list(rows)
+        labels = [IDX[i] for i in rows]
+        fb = sf.Frame(sf.TypeBlocks.from_blocks([v2[rows], v3[rows]]), index=labels, columns=('A2', 'A3'), own_data=True)
+        new = {'A2': cells(v2[rows]), 'A3': cells(v3[rows])}
+        r = f.assign.loc[lk, ['A2', 'A3']](fb)
+        check_block_assign(o, f, r, c, rows, new, f'assign.loc[{name}, [A2,A3]](Frame {b}|{b2})')
+        r = f.assign.iloc[ik, 1:3](fb)
+        check_block_assign(o, f, r, c, rows, new, f'assign.iloc[{name}, 1:3](Frame {b}|{b2})')
+    # the value frame in the other column order, and covering the whole block
+    rows = [0, 2]
+    v1 = base_array(b2, variant=0)
+    fb = sf.Frame(sf.TypeBlocks.from_blocks([v3[rows], v1[rows], v2[rows]]), index=['p', 'r'], columns=('A3', 'A', 'A2'), own_data=True)
+    r = f.assign.loc[['p', 'r'], ['A', 'A2', 'A3']](fb)
+    exp = {'A': list(c['A']), 'A2': list(c['A2']), 'A3': list(c['A3'])}
+    for k, i in enumerate(rows):
+        exp['A'][i], exp['A2'][i], exp['A3'][i] = v1[rows][k], v2[rows][k], v3[rows][k]
+    for lab in ('A', 'A2', 'A3'):
+        o.col(exp[lab], colarr(r, lab), f'assign.loc[list, [A,A2,A3]](Frame, permuted columns) col {lab}')
+    for lab in ('K', 'S'):
+        o.col(c[lab], colarr(r, lab), f'assign.loc[list, [A,A2,A3]](Frame) col {lab}')
+        o.keep(f[lab].dtype, r[lab].dtype, f'assign.loc[list, [A,A2,A3]](Frame) {lab}')
+    return o
+
+
+def f_assign_block_slice(a, b, layout):
+    """array- and Series-valued assignment into a contiguous slice of a 2-D block with partial row keys"""
+    import static_frame as sf
+    f = mk_frame3(a, layout)
+    c = fcols3(a)
+    v2, v3 = base_array(b, variant=1), base_array(b, variant=2)
+    o = Obs()
+    for name, lk, ik, rows in ROW_KEYS:
+        rows = list(rows)
+        arr = np.empty((len(rows), 2), dtype=v2.dtype)
+        arr[:, 0] = v2[rows]
+        arr[:, 1] = v3[rows]
+        new = {'A2': cells(v2[rows]), 'A3': cells(v3[rows])}
+        r = f.assign.iloc[ik, 1:3](arr)
+        check_block_assign(o, f, r, c, rows, new, f'assign.iloc[{name}, 1:3](2-D array)')
+        r = f.assign.loc[lk, ['A2', 'A3']](arr)
+        check_block_assign(o, f, r, c, rows, new, f'assign.loc[{name}, [A2,A3]](2-D array)')
+        # one column of the block, Series value labelled by the addressed rows
+        sb = sf.Series(v2[rows], index=[IDX[i] for i in rows])
+        r = f.assign.loc[lk, 'A2'](sb)
+        exp = list(c['A2'])
+        for k, i in enumerate(rows):
+            exp[i] = new['A2'][k]
+        o.col(exp, colarr(r, 'A2'), f'assign.loc[{name}, A2](Series) col A2')
+        for lab in ('A', 'A3', 'K', 'S'):
+            o.col(c[lab], colarr(r, lab), f'assign.loc[{name}, A2](Series) col {lab}')
+            o.keep(f[lab].dtype, r[lab].dtype, f'assign.loc[{name}, A2](Series) {lab}')
+    # one row across the slice: a Series labelled by the columns
+    sr = sf.Series(np.array(cells(v2)[:2], dtype=v2.dtype) if v2.dtype.kind != 'O' else v2[:2], index=('A2', 'A3'))
+    r = f.assign.loc['q', ['A2', 'A3']](sr)
+    check_block_assign(o, f, r, c, [1], {'A2': [sr.values[0]], 'A3': [sr.values[1]]}, 'assign.loc[q, [A2,A3]](Series over columns)')
+    return o
+
+
+# representative dtypes for the second value column of f_assign_frame in the quick tier (thorough: all)
+B2_QUICK = ('bool', 'int64', 'float64', '<U1', '<U6', 'S4', 'M8[D]', 'object')
+
 ARRAY_SITES = {
+    'f_assign_frame': f_assign_frame, 'f_assign_block_slice': f_assign_block_slice,
     'f_bloc_assign': f_bloc_assign, 'f_bloc_select': f_bloc_select, 'f_fill_directional': f_fill_directional,
     's_concat': s_concat, 'f_concat_rows': f_concat_rows, 'f_concat_cols': f_concat_cols, 'f_concat_union': f_concat_union,
     's_assign_array': s_assign_array, 'f_assign_array': f_assign_array, 'f_assign_2d': f_assign_2d,
@@ -1417,12 +1540,12 @@ def eval_site(ctx, c):
     else:
         fn = ARRAY_SITES[site]
         arg = c['b']
-    detail = {'site': site, 'a': c['a'], 'b': c.get('b'), 'e': c.get('e'), 'layout': c['layout']}
+    detail = {'site': site, 'a': c['a'], 'b': c.get('b'), 'b2': c.get('b2'), 'e': c.get('e'), 'layout': c['layout']}
     try:
         with warnings.catch_warnings():
             warnings.simplefilter('ignore')
             with np.errstate(all='ignore'):
-                o = fn(c['a'], arg, c['layout'])
+                o = fn(c['a'], arg, c['layout'], **({'b2': c['b2']} if 'b2' in c else {}))
     except Skip:
         ctx.count('site_not_applicable')
         return fails
@@ -1477,6 +1600,11 @@ def cell_detail(sup, sto):
         d['sup_unit'] = np.datetime_data(sup.dtype)[0]
         if isinstance(sto, int) and not isinstance(sto, bool):
             d['sto_ticks'] = bool(sto == sup.astype(np.int64).item())
+            try:
+                ns = sup.astype('M8[ns]' if isinstance(sup, np.datetime64) else 'm8[ns]')
+                d['sto_ticks_ns'] = bool(sto == ns.astype(np.int64).item())
+            except Exception:
+                d['sto_ticks_ns'] = False
     return d
 
 
@@ -1506,9 +1634,10 @@ def classify(f):
             (supc == 'dt' and d.get('sup_unit') in ('ns', 'ps', 'fs', 'as')) or
             (supc == 'td' and d.get('sup_unit') in ('Y', 'M', 'ns', 'ps', 'fs', 'as'))):
         return 'F26c-c07-datetime-units-object-int'
-    if site == 'f_assign_elem' and d.get('where', '').startswith('assign.loc[q,[A,K]]') and supc == 'bytes' and stoc in ('bytes', 'num') \
-            and d.get('e') in ("b'xy'", "np.bytes_(b'wxyz')"):
-        return 'F26d-c07-bytes-element-frame-assign-columns'
+    if stoc == 'num' and supc in ('dt', 'td') and d.get('sto_ticks_ns') and \
+            any(isinstance(x, str) and x.endswith('[ns]') for x in (d.get('a'), d.get('b'), d.get('b2'))):
+        # a coarser unit first promoted to [ns] next to an [ns] column (concat_resolved of the value blocks), then to object
+        return 'F26c-c07-datetime-units-object-int'
     if d.get('py') and (supc, stoc) in PY_MERGES:
         return 'F25-c07-python-values-numpy-merge'
     if site == 'resolve_dtype' and supc == 'dt' and stoc == 'dt' and d.get('r') == 'datetime64[W]' and d.get('a') in ('M8[Y]', 'M8[M]'):
